@@ -370,9 +370,9 @@ def run_shard(spec):
     pr = probe.LineProbe("interfaces/_proxy.py", "decorator/logger.py").start()
     try:
         if spec["kind"] == "stack":
-            core.drive(PID, spec, gen_case, execute, result, nontrivial=nontrivial)
+            core.drive(PID, spec, gen_case, execute, result, nontrivial=nontrivial, stall=20)
         else:
-            core.drive(PID, spec, gen_template, exec_template, result, nontrivial=nontrivial)
+            core.drive(PID, spec, gen_template, exec_template, result, nontrivial=nontrivial, stall=20)
     finally:
         pr.stop()
     pr.record(result)
